@@ -126,6 +126,11 @@ def array(x, dtype=None, *a, **k):
         r = np.empty((), dtype=object)
         r[()] = x
         return r.view(SymArray)
+    if isinstance(x, (list, tuple)) and dtype is not None and \
+            _wants_float(dtype):
+        r = _orig['array'](x, dtype=object)
+        if r.size and any(isinstance(e, SymReal) for e in r.flat):
+            return r.view(SymArray)
     r = _orig['array'](x, dtype, *a, **k)
     if isinstance(r, np.ndarray) and r.dtype == object and not isinstance(
             r, SymArray) and r.size and any(
@@ -265,6 +270,29 @@ def hypot(a, b, *r, **k):
 _NAMES = ['isfinite', 'isnan', 'isinf', 'asarray', 'asanyarray', 'array', 'nansum',
           'nanmin', 'nanmax', 'nanmean', 'nanmedian', 'nanstd', 'nanvar',
           'sqrt', 'floor', 'ceil', 'hypot', 'ascontiguousarray', 'isscalar']
+
+
+def sym_argmax(a):
+    """Index (flat) of the first maximal non-NaN element of an object array;
+    one solver-decided fork per candidate (n paths instead of n!)."""
+    flat = list(a.flat)
+    idx = [i for i, e in enumerate(flat) if not _elem_isnan(e)]
+    if not idx:
+        raise ValueError('All-NaN slice encountered')
+    ctx = Ctx.cur
+    for n, k in enumerate(idx):
+        if n == len(idx) - 1:
+            return k
+        conds = []
+        for j in idx:
+            if j == k:
+                continue
+            c = (flat[k] > flat[j]) if j < k else (flat[k] >= flat[j])
+            conds.append(c.e if isinstance(c, SymBool) else z3.BoolVal(
+                bool(c)))
+        if ctx.decide(z3.And(conds)):
+            return k
+    return idx[-1]
 
 
 class _UfuncProxy:
